@@ -29,21 +29,22 @@ const qFactorWeightingKey = "q"
 func sortedMimes(accept string) (sorted []mime) {
 	for _, each := range strings.Split(accept, ",") {
 		typeAndQuality := strings.Split(strings.Trim(each, " "), ";")
-		if len(typeAndQuality) == 1 {
-			sorted = insertMime(sorted, mime{typeAndQuality[0], 1.0})
-		} else {
-			// take factor
-			qAndWeight := strings.Split(typeAndQuality[1], "=")
+		media, quality, valid := strings.Trim(typeAndQuality[0], " "), 1.0, true
+		// take factor ; it can be preceded by other parameters
+		for _, param := range typeAndQuality[1:] {
+			qAndWeight := strings.Split(param, "=")
 			if len(qAndWeight) == 2 && strings.Trim(qAndWeight[0], " ") == qFactorWeightingKey {
-				f, err := strconv.ParseFloat(qAndWeight[1], 64)
+				f, err := strconv.ParseFloat(strings.Trim(qAndWeight[1], " "), 64)
 				if err != nil {
 					traceLogger.Printf("unable to parse quality in %s, %v", each, err)
-				} else {
-					sorted = insertMime(sorted, mime{typeAndQuality[0], f})
+					valid = false
 				}
-			} else {
-				sorted = insertMime(sorted, mime{typeAndQuality[0], 1.0})
+				quality = f
+				break
 			}
+		}
+		if valid {
+			sorted = insertMime(sorted, mime{media, quality})
 		}
 	}
 	return
